@@ -265,6 +265,16 @@ def load_replay(path):
         return json.load(f)
 
 
+def corpus_files(prop):
+    """Regression corpus: replay files recorded on trees that violated the property (the pre-repair
+    tree, or a seeded change).  Every check re-executes its corpus first; on a tree where the
+    property holds none of them reproduces."""
+    d = os.path.join(VERIF_DIR, 'corpus', prop)
+    if not os.path.isdir(d):
+        return []
+    return [os.path.join(d, f) for f in sorted(os.listdir(d)) if f.endswith('.json')]
+
+
 def write_evidence(prop, tier_, seed, coverage, wall_s, violations, assumptions):
     os.makedirs(EVIDENCE_DIR, exist_ok=True)
     path = os.path.join(EVIDENCE_DIR, '%s.json' % prop)
